@@ -201,3 +201,50 @@ func execAmsg2(w []string) string {
 	}
 	return "bad-op"
 }
+
+// aacct: a stored account (auth.BaseAccount: address, coins as a repeated field, the registered key) against the model's
+// `encodeAccount`; rebuilt on the implementation side by decoding the key from its bytes.
+func genAacct(r *rand.Rand) string {
+	k := chain.Keys[r.Intn(chain.NAll)]
+	coins := sdk.Coins{}
+	for _, d := range []string{"abc", "upokt", "zzz"} {
+		if r.Intn(2) == 0 {
+			a := genBig(r)
+			a.Abs(a)
+			if a.Sign() > 0 {
+				coins = append(coins, sdk.NewCoin(d, sdk.NewIntFromBigInt(a)))
+			}
+		}
+	}
+	acc := authTypes.BaseAccount{Address: genAddr(r), Coins: coins, PubKey: k.Pub}
+	if r.Intn(3) == 0 {
+		acc.PubKey = nil
+	}
+	var pkBz []byte
+	if acc.PubKey != nil {
+		pkBz = cdc.MustMarshalBinaryBare(acc.PubKey)
+	}
+	full := cdc.MustMarshalBinaryBare(&acc)
+	toks := []string{"aacct", hx(full[:4]), hx(acc.Address), hx(pkBz)}
+	for _, c := range coins {
+		toks = append(toks, hx([]byte(c.Denom))+":"+c.Amount.String())
+	}
+	return strings.Join(toks, " ")
+}
+
+func execAacct(w []string) string {
+	var pk crypto.PublicKey
+	if b := unhx(w[3]); len(b) > 0 {
+		if err := cdc.UnmarshalBinaryBare(b, &pk); err != nil {
+			return "err"
+		}
+	}
+	var coins sdk.Coins
+	for _, t := range w[4:] {
+		x := strings.Split(t, ":")
+		a, _ := new(big.Int).SetString(x[1], 10)
+		coins = append(coins, sdk.Coin{Denom: string(unhx(x[0])), Amount: sdk.NewIntFromBigInt(a)})
+	}
+	acc := authTypes.BaseAccount{Address: unhx(w[2]), Coins: coins, PubKey: pk}
+	return "ok " + hx(cdc.MustMarshalBinaryBare(&acc))
+}
